@@ -380,6 +380,50 @@ def byte_files(src: str, every: int):
     yield 'raw-bytes:utf-16', src.encode('utf-16').decode('latin-1')
 
 
+DEEP = {
+    'paren': lambda n: 'x = ' + '(' * n + '1' + ')' * n + '\n',
+    'list': lambda n: 'x = ' + '[' * n + '1' + ']' * n + '\n',
+    'unary': lambda n: 'x = ' + '-' * n + '1\n',
+    'not': lambda n: 'x = ' + 'not ' * n + 'True\n',
+    'attr': lambda n: 'def f(a: int) -> int:\n\treturn a' + '.b' * n + '\n',
+    'call': lambda n: 'def f(a: int) -> int:\n\treturn a' + '()' * n + '\n',
+    'index': lambda n: 'def f(a: int) -> int:\n\treturn a' + '[0]' * n + '\n',
+    'binchain': lambda n: 'x = ' + ' + '.join(['1'] * n) + '\n',
+    'ifnest': lambda n: 'def f(a: int) -> int:\n' + ''.join('\t' * (k + 1) + 'if a:\n' for k in range(n)) + '\t' * (n + 1) + 'return a\n\treturn 0\n',
+    'ternary': lambda n: 'x = ' + '1 if True else ' * n + '0\n',
+    'lambda': lambda n: 'x = ' + 'lambda: ' * n + '0\n',
+    'defnest': lambda n: ''.join('\t' * k + f'def f{k}() -> int:\n' for k in range(n)) + '\t' * n + 'return 1\n',
+}
+
+
+def deep_cases(ctx):
+    """Nesting depth as the deviation: every family at every depth of the bound. A depth is judged for escaping
+    exceptions only; a case that needs more than the time budget is counted as inconclusive (deep inputs are slow)."""
+    depths = (25, 60, 1000) if ctx.quick else (25, 60, 120, 250, 500, 1000, 3000)
+    out = []
+    for fam, make in DEEP.items():
+        for n in depths:
+            out.append((f'deep:{fam}:{n}', make(n)))
+    if ctx.quick:
+        out.append(('deep:call:200', DEEP['call'](200)))
+    return out
+
+
+def deep_worker(task):
+    kind, text = task
+    viol, outcomes, parsable = judge_text(kind, text, 900000 + abs(hash(kind)) % 90000)
+    keep = []
+    inconclusive = 0
+    for sig, what, rep in viol:
+        if sig[0] == 'no-termination':
+            inconclusive += 1
+            continue
+        if sig[0] == 'unparsable-not-syntax-error' or sig[0] == 'unparsable-accepted':
+            continue   # the reference parser itself gives up on very deep texts
+        keep.append((['deep-nesting'] + sig[:2] + [kind.split(':')[1], f'depth={kind.split(":")[2]}', sig[-1]], what[:300], {'kind': kind, 'text': text}))
+    return keep, outcomes, inconclusive
+
+
 CLI_OPTIONS = [(), ('-p',)]   # -p: profile the run (documented option of bin/transpile)
 
 
@@ -473,6 +517,14 @@ def run(ctx):
             parsable += 1 if p else 0
             outcomes[oc] = outcomes.get(oc, 0) + 1
             ctx.merge(viol)
+    deep = deep_cases(ctx)
+    res_deep = pool.pmap(deep_worker, deep, workers=ctx.workers)
+    deep_outcomes = {}
+    deep_inconclusive = 0
+    for viol, oc, inc in res_deep:
+        deep_outcomes['|'.join(oc)] = deep_outcomes.get('|'.join(oc), 0) + 1
+        deep_inconclusive += inc
+        ctx.merge(viol)
     cli = cli_cases(ctx)
     res_cli = pool.pmap(cli_task, cli, workers=ctx.workers)
     cli_outcomes = {}
@@ -483,9 +535,12 @@ def run(ctx):
     return {
         'evaluations': n * 2 + len(cli),
         'cli_histories': len(cli),
+        'deep_nesting_cases': len(deep),
+        'deep_nesting_outcomes': deep_outcomes,
+        'deep_nesting_inconclusive_after_10s': deep_inconclusive,
         'cli_outcomes': dict(sorted(cli_outcomes.items(), key=lambda kv: -kv[1])[:12]),
         'distinct_nontrivial': n,
-        'rule': f'seeds {list(SEEDS)}; ill-typed programs {len(ILL_TYPED)}; every single token deviation (delete, duplicate, replace/insert each of {len(TOKEN_ALPHABET) if not ctx.quick else len(TOKEN_ALPHABET[::3])} tokens, layout token removed/added) of all seeds; every truncation and every byte insertion {BYTES!r} at every offset of {"all" if not ctx.quick else "2"} seeds; token soups of length <= {2 if ctx.quick else 3}; texts are distinct; each runs in memory and on disk; every text the grammar accepts is processed a second time on disk against the cache files the first run left (history of length 2); module files that are not valid UTF-8 (each of {BAD_BYTES!r} inserted at every byte offset of {"one seed" if ctx.quick else "all seeds"}, and a UTF-16 file) as target and imported from an in-memory main; CLI layer: bin/transpile on a one-module project for every seed, ill-typed program and 3 syntax errors x options {CLI_OPTIONS}{" (-p on the seeds, the syntax errors and every fifth ill-typed program)" if ctx.quick else ""}, and histories good run -> changed file (syntax error, ill-typed, undecodable, empty, unchanged) -> not forced run (-> good again)',
+        'rule': f'seeds {list(SEEDS)}; ill-typed programs {len(ILL_TYPED)}; every single token deviation (delete, duplicate, replace/insert each of {len(TOKEN_ALPHABET) if not ctx.quick else len(TOKEN_ALPHABET[::3])} tokens, layout token removed/added) of all seeds; every truncation and every byte insertion {BYTES!r} at every offset of {"all" if not ctx.quick else "2"} seeds; token soups of length <= {2 if ctx.quick else 3}; texts are distinct; each runs in memory and on disk; every text the grammar accepts is processed a second time on disk against the cache files the first run left (history of length 2); module files that are not valid UTF-8 (each of {BAD_BYTES!r} inserted at every byte offset of {"one seed" if ctx.quick else "all seeds"}, and a UTF-16 file) as target and imported from an in-memory main; deep-nesting layer: {len(DEEP)} nesting families ({", ".join(DEEP)}) at depths {(25, 60, 1000) if ctx.quick else (25, 60, 120, 250, 500, 1000, 3000)}, judged for escaping exceptions (a path that needs more than 10 s is counted as inconclusive, not as a violation); CLI layer: bin/transpile on a one-module project for every seed, ill-typed program and 3 syntax errors x options {CLI_OPTIONS}{" (-p on the seeds, the syntax errors and every fifth ill-typed program)" if ctx.quick else ""}, and histories good run -> changed file (syntax error, ill-typed, undecodable, empty, unchanged) -> not forced run (-> good again)',
         'samples': [cs[0][1][:80], cs[len(cs) // 2][1][:80], cs[-1][1][:40]],
         'accepted_by_grammar': parsable,
         'outcome_pairs_memory_disk': {f'{a}|{b}': c for (a, b), c in top},
